@@ -362,3 +362,61 @@ func UserPackageCheck(t *testing.T, name string, casesPerProcess int) {
 		}
 	})
 }
+
+// KnownJsonEmbedsJsonCheck replays the fixed minimal input of known finding D18 (an @fp.Json struct that embeds
+// another @fp.Json struct loses every field but the embedded one's in the round trip).
+func KnownJsonEmbedsJsonCheck(t *testing.T) {
+	kit.Plain(t, "json/known-shape/json-embeds-json", "fixed input: // @fp.Value // @fp.Json type Base struct{ id int }; // @fp.Value // @fp.Json type Derived struct{ Base; name string }; json.Unmarshal(json.Marshal(Derived{Base{3}, \"n\"})) compared with the value", func(t *testing.T, rec *kit.Rec) {
+		rec.Case(true, "Derived{Base; name string}")
+		m, err := scratch.NewModule()
+		if err != nil {
+			rec.PlainFail(t, "HARNESS|infra", "%v", err)
+		}
+		defer m.Remove()
+		_ = m.WriteFile("pa/types.go", "package pa\n\n// @fp.Value\n// @fp.Json\ntype Base struct {\n\tid int\n}\n\n// @fp.Value\n// @fp.Json\ntype Derived struct {\n\tBase\n\tname string\n}\n")
+		g := m.RunGombok("pa", "pa")
+		if scratch.ToolchainTrouble(g.Out) || g.TimedOut {
+			rec.PlainFail(t, "HARNESS|infra|toolchain-trouble", "%s", clip(g.Out, 400))
+		}
+		if g.ExitCode != 0 || strings.Contains(g.Out, "panic:") {
+			rec.PlainFail(t, "C15|known-shape|json-embeds-json|gombok", "gombok failed: %s", clip(g.Out, 800))
+		}
+		_ = m.WriteFile("pa/zz_known_test.go", `package pa
+
+import (
+	"encoding/json"
+	"fmt"
+	"testing"
+)
+
+func TestKnown(t *testing.T) {
+	d := Derived{Base: Base{id: 3}, name: "n"}
+	b, err := json.Marshal(d)
+	if err != nil {
+		t.Fatalf("Marshal: %v", err)
+	}
+	var back Derived
+	if err := json.Unmarshal(b, &back); err != nil {
+		t.Fatalf("Unmarshal(%s): %v", b, err)
+	}
+	if back != d {
+		fmt.Printf("LOST-FIELDS json=%s back=%#v want=%#v\n", b, back, d)
+		t.Fail()
+	}
+}
+`)
+		r, _, died := m.GoTestLaws(300 * time.Second)
+		switch {
+		case died || r.TimedOut || scratch.ToolchainTrouble(r.Out):
+			rec.PlainFail(t, "HARNESS|infra|law-test-died", "%s", clip(r.Out, 400))
+		case strings.Contains(r.Out, "LOST-FIELDS"):
+			l := r.Out[strings.Index(r.Out, "LOST-FIELDS"):]
+			if i := strings.Index(l, "\n"); i > 0 {
+				l = l[:i]
+			}
+			rec.PlainFail(t, "C15|known-shape|json-embeds-json|roundtrip", "%s\n--- Mutable struct embeds Base and with it Base's MarshalJSON/UnmarshalJSON", l)
+		case r.ExitCode != 0:
+			rec.PlainFail(t, "C15|known-shape|json-embeds-json|compile", "%s", clip(r.Out, 1200))
+		}
+	})
+}
